@@ -65,12 +65,75 @@ reg("C18", "proof",
     "and compute_interval_bounds, two distinct iterations never write the same cell, never read a cell the other writes, and "
     "carry no scalar across iterations (race-freedom obligations over the access log of the symbolic execution; values are not "
     "modelled for the confidence kernels: frame mode); every subscript whose index is modelled is in bounds. "
-    "Repetition on one machine, other pipelines on other machines, input datasets untouched: bounded stand-in.",
+    "Caller's datasets untouched: " + "run_prepare lets only the listed machine fields share memory with the caller's datasets, "
+    "and no callback (matching cost, aggregation, confidence, disparity, filter, refinement, validation, multiscale), step "
+    "operation or image helper writes in place into what those fields hold -- frame obligations for 45 functions. "
+    "Repetition on one machine, other pipelines on other machines: bounded stand-in.",
     trusted=["numba executes each prange iteration atomically w.r.t. its private arrays; numpy calls inside kernels are deterministic",
              "frame mode: results of numpy computations are unconstrained private values; reads/writes at indices computed from them "
              "are treated as touching any cell (no bounds obligation can be stated for them)"])
-for _pid in ["C01", "C02", "C04", "C05", "C07", "C09", "C10", "C12", "C13", "C15", "C16", "C17", "C19", "C20"]:
-    reg(_pid, "other", BOUNDED_ONLY)
+FRAME_NOTE = ("frame obligations (back end alias-ai: flow-sensitive may-alias abstract interpretation of the real function text, "
+              "repository callees and every registered plug-in class analysed recursively; one obligation per parameter: no in-place "
+              "write reaches it outside the contract's assigns set)")
+FRAME_TRUSTED = ["alias-ai: numpy/xarray copy-vs-view behaviour as documented (basic indexing, .data/.values, reshape/asarray/sel/isel, "
+                 "shallow copies and xarray constructors keep buffers; advanced indexing, arithmetic, astype/copy and documented "
+                 "new-array functions give fresh ones); json_checker / transitions / scipy / logging calls do not write into arrays; "
+                 "parameters annotated int/float/str/bool receive immutable scalars; no array is reachable through module globals "
+                 "(each instance is listed under 'alias.assumed' of the function's evidence record)"]
+
+
+def other(pid, text, trusted=(), assumptions=()):
+    reg(pid, "other", text + "  The remaining clauses of the property are decided by the bounded stand-in only (labelled bounded, "
+        "never counted as proved): the real code is run on an enumerated domain against a naive oracle written from the property "
+        "statement.", trusted, assumptions)
+
+
+other("C01", "the transition tables of PandoraMachine (check and run phases) are decided exhaustively as finite data obligations "
+      "against the documented machine (@tables: every state/trigger pair, re-read from the class body on every run); acceptance "
+      "and execution of whole pipelines:")
+other("C02", "point_interval (the column ranges of the two images that a disparity puts in correspondence: in range, equal length, "
+      "offset by the disparity, empty when the disparity exceeds the width) and popcount32b (Hamming weight of a 32-bit word, "
+      "bit-vector proof) are proved for all inputs; shift_right_img / census_transform leave their input image untouched ("
+      + FRAME_NOTE + "); the cost values themselves:", trusted=FRAME_TRUSTED)
+other("C04", "criteria.mask_border (border pixels end with exactly bit 0), validity_mask for images without input masks (bits 1 and 2 "
+      "raised exactly when the global interval is entirely / partly outside the right image, interior columns) and "
+      "mask_invalid_variable_disparity_range (bit 1 added exactly on all-NaN pixels not yet carrying it) are proved over symbolic "
+      "datasets (vectorised numpy layer); later steps only add their own bits: postconditions of the refinement / interpolation "
+      "kernels (C06, C14); validity_mask writes only cv.validity_mask (" + FRAME_NOTE + "); masks given as input (bits 6, 7):",
+      trusted=FRAME_TRUSTED)
+other("C05", "glue contracts on the nine <step>_check_conf callbacks (the step's completed configuration is stored under the user's "
+      "key, margins recorded once, no other field written); defaults, domains, idempotence, user dictionary untouched:")
+other("C07", "frame of CrossCheckingAccurate.disparity_checking and of the validation_run callback proved for all inputs: the step "
+      "writes the left validity mask, its confidence band and attributes only -- never a disparity map, never the right dataset, "
+      "never the images (" + FRAME_NOTE + "); mask_border postcondition (border pixels at bit 0 only); the per-pixel "
+      "mismatch/occlusion classification:", trusted=FRAME_TRUSTED)
+other("C09", "frame of cv_masked proved: masking writes the cost volume and its validity mask only -- not the caller's disparity "
+      "grids nor the images (" + FRAME_NOTE + "); interval independence of the costs and final disparities inside the interval:",
+      trusted=FRAME_TRUSTED)
+other("C10", "frames of the three filters and of the filter_run callback proved for all inputs: median and bilateral write the "
+      "disparity map (and attributes) only, hence never the validity mask; median_for_intervals writes the interval bands and the "
+      "validity mask (bit 11) only (" + FRAME_NOTE + "); the filtered values:", trusted=FRAME_TRUSTED)
+other("C12", "frames of the four confidence_prediction methods and of the cost_volume_confidence_run callback proved: a band is "
+      "appended to the confidence variable of the cost volume / disparity datasets, the cost volume values, the images and the "
+      "existing arrays are not written (" + FRAME_NOTE + "); prange race-freedom of the kernels (C18); glue contract of the "
+      "callback (indicator suffix); the indicator values:", trusted=FRAME_TRUSTED)
+other("C13", "criteria.validity_mask (flags of a pixel depend on its column, the interval and the image width only) proved; "
+      "dependency cone / crop independence of whole pipelines:")
+other("C15", "frames proved: FixedZoomPyramid.disparity_range, prepare_pyramid and fill_nodata_image leave the images and the "
+      "coarser disparity dataset untouched; run_multiscale only rebinds the machine's fields and pops its own pyramids ("
+      + FRAME_NOTE + "); scale schedule and interval propagation:", trusted=FRAME_TRUSTED)
+other("C16", "img_tools.get_window (ROI window clipped to the image, first/last row and column included) proved for all inputs; "
+      "dataset construction from files:")
+other("C17", "no contract within reach decides this property (xarray dataset validation and file probing through rasterio); ")
+other("C19", "no contract within reach decides this property (command-line entry point, rasterio file output, JSON round trip); ")
+other("C20", "margin tables of every step class decided exhaustively (@tables), Margins descriptors and the margins getters of "
+      "the matching-cost / filter classes proved (value contracts), glue contracts on the <step>_check_conf callbacks (each step "
+      "records its margins exactly once under its own name); the global margins of whole pipelines:")
+
+for _pid in ["C03", "C06", "C08", "C11", "C14", "C18"]:
+    PROPS[_pid]["trusted"] += FRAME_TRUSTED
+    if _pid != "C18":
+        PROPS[_pid]["explanation"] += "  Frames of the numpy/xarray drivers of this step: " + FRAME_NOTE + "."
 
 FIX_COMMITS = ['c8eaaa2', '39f21c5', '00e445f', 'cea0f99', '62af5fc', 'd016e8e', 'a2233a1', '3bbb417', 'bdac312', '35f4fa5', 'bcaad45', '42d03b2', 'fd4d6b2', '756db6e', 'abbd602', 'a62df76', 'bf98cec', '1944eb0']
 NOT_YET = {}
